@@ -69,6 +69,8 @@ Proof.
   - destruct (runL I sk (eval_arg a p c) None w) as [[c2 w2]|] eqn:E; [|discriminate].
     inversion H; subst. destruct (IHsk _ _ _ _ _ E) as (k & T & G).
     exists k. split; [exact T|]. intro g. simpl. now rewrite G.
+  - inversion H as [H1]. destruct (seed_from_frame gstate value req seed I t w) as (_ & _ & T1 & _).
+    exists 1. split; [rewrite H1 in T1; simpl in T1; lia|]. intro g. simpl. rewrite H1. reflexivity.
 Qed.
 
 (* ---------------------------------------------------------------- the source log and the history only grow *)
@@ -138,6 +140,9 @@ Proof.
     eapply grows_trans; [apply grows_tick|].
     pose proof (grows_draw_glob I t (tickL gstate value w) (env (ticks w) g)) as G. now rewrite E in G.
   - specialize (IHsk (eval_arg a p c) None w g). destruct (runG env I sk (eval_arg a p c) None w g) as [[c1 w1] g1]. exact IHsk.
+  - destruct (seed_from_frame gstate value req seed I t w) as (S1 & H1 & _).
+    destruct (seed_from gstate value req seed I t w) as [c1 w1]. unfold wof. simpl in *.
+    split; [exists []; now rewrite S1 | exists []; now rewrite H1].
 Qed.
 
 Lemma grows_in : forall w w' x, grows w w' -> In x (srcs w) -> In x (srcs w').
@@ -177,6 +182,8 @@ Proof.
   - destruct (dglob I t (tickL gstate value w) (env (ticks w) g)) as [w1 g1] eqn:E. unfold wof. simpl.
     pose proof (failed_draw_glob I t (tickL gstate value w) (env (ticks w) g) H) as F. now rewrite E in F.
   - specialize (IHsk (eval_arg a p c) None w g H). destruct (runG env I sk (eval_arg a p c) None w g) as [[c1 w1] g1]. exact IHsk.
+  - destruct (seed_from_frame gstate value req seed I t w) as (_ & _ & _ & F & _).
+    destruct (seed_from gstate value req seed I t w) as [c1 w1]. unfold wof. simpl in *. auto.
 Qed.
 
 Lemma must_check_fails : forall env (I : interp) sk, must_check sk = true ->
@@ -239,6 +246,7 @@ Proof.
     pose proof (draw_glob_logs I t (tickL gstate value w) (env (ticks w) g)) as G. now rewrite E in G.
   - simpl. destruct (runL I sk (eval_arg a p c) None w) as [[c2 w2]|] eqn:E; [discriminate|].
     specialize (IHsk _ _ _ g E). destruct (runG env I sk (eval_arg a p c) None w g) as [[c1 w1] g1]. exact IHsk.
+  - discriminate.
 Qed.
 
 (* ---------------------------------------------------------------- one call: the trace criterion *)
@@ -352,6 +360,7 @@ Proof.
   - destruct (runL I sk (eval_arg a p c) None w) as [[c2 w2]|] eqn:E; [discriminate|].
     destruct (IHsk _ _ _ E) as (t' & h0 & m & K). exists t', h0, m. intro g. destruct (K g) as [l Hl]. simpl.
     destruct (runG idenv0 I sk (eval_arg a p c) None w g) as [[c1 w1] g1]. exists l. exact Hl.
+  - discriminate.
 Qed.
 
 Lemma app_mid_inj : forall (A : Type) (l l' m : list A) x y, l ++ x :: m = l' ++ y :: m -> x = y.
@@ -453,6 +462,10 @@ Proof.
     { rewrite wabsp_eval_arg. now apply warg_mono. }
     destruct (IHsk _ _ _ E1 (eval_arg a p c) None w Hp' eq_refl) as (c1 & w1 & R1 & H1).
     rewrite R1. eauto.
+  - inversion H; subst. simpl.
+    exists (fst (seed_from gstate value req seed I t w)), (snd (seed_from gstate value req seed I t w)).
+    split; [now rewrite <- surjective_pairing|].
+    destruct (seed_from_frame gstate value req seed I t w) as (_ & _ & _ & _ & [E|[h E]]); rewrite E; reflexivity.
 Qed.
 
 (* one call: random_state an int, a generator object that is not the global one, or junk *)
@@ -508,6 +521,7 @@ Proof.
     assert (X : wp (aarg a p c') = warg a (wp p) (wc c')).
     { destruct a; simpl; auto; [destruct c'; reflexivity | destruct (seed_ok s); reflexivity]. }
     rewrite <- X. change WSafe with (wc AUnset). now rewrite (IHsk _ _ _ E1).
+  - discriminate.
 Qed.
 
 Corollary global_free_gfw : forall sk, global_free sk PInt = true -> global_free_w sk = true.
